@@ -321,6 +321,7 @@ class World:
         g = X.Gen(self.ns, self.rng, refchoice=lambda tx, b: self.refchoice(tx, b, allow),
                   lookup=lookup, xobj=self.xobj_choice if "foreign" in allow else None, **kw)
         g.omit_p = 0 if getattr(self, "forced", None) else getattr(self, "omit_p", 0.08)
+        g.force_ext = getattr(self, "force_ext", None)
         if like_buf is not None and not getattr(self, "forced", None):
             # "keeps its value" as an input form: the current value with its references denoting the same referents
             g.keep = lambda ftx, cur: (None if _unknown_cap(ftx, cur) else self.copy_input(ftx, cur, like_buf, True))
@@ -568,9 +569,12 @@ class World:
         path, acc, last, etx, cur, b = ep
         route = rng.choice([r for r in self.routes(key) if r not in ("nplike", "hybrid")])
         frm = None
+        refish = etx["k"] in ("struct", "arr") and X.has_refs(etx)
+        if refish and from_p > 0:
+            from_p = max(from_p, 0.55)      # parts that hold references: whole-part assignment from another OBJECT is where relative words move
         if etx["k"] in ("struct", "arr") and not no_from and rng.random() < from_p:
             # the value is an object of the same type and skeleton living in some buffer (possibly at the same offset elsewhere)
-            sb = rng.randrange(len(self.bufs))
+            sb = b if refish and rng.random() < 0.5 else rng.randrange(len(self.bufs))
             g = self.gen(("null", "alias", "new") if sb != b else allow, np_forms=np_forms, like_buf=b)
             g.permute_fields = True
             g.keep = None               # (this value CONSTRUCTS an object: what a dictionary omits there is the default)
